@@ -919,7 +919,7 @@ pub fn build_realfs_plan(rng: &mut Rng, seed: u64, c: &Corpus) -> SimPlan {
     let n = jobs.len();
     let keys = rng.bytes16();
     let reuse: Vec<bool> = (0..n).map(|_| rng.chance(1, 2)).collect();
-    SimPlan { faults: vec![vec![]; n], jobs, threads: vec![ThreadPlan { keys: keys_to_hex(&keys), jobs: (0..n).collect(), reuse, offsets: vec![] }], schedule: vec![], sched_seed: None, switch_16: 0, clock: vec![], lib_pass: false, all_formats: false, realfs: true, env: vec![] }
+    SimPlan { faults: vec![vec![]; n], jobs, threads: vec![ThreadPlan { keys: keys_to_hex(&keys), jobs: (0..n).collect(), reuse, offsets: vec![] }], schedule: vec![], sched_seed: None, switch_16: 0, clock: vec![], lib_pass: false, all_formats: false, realfs: true, env: vec![], clock_tick_ns: 0 }
 }
 
 /// Environment variables a terminal, a CI system or a packaging script may
@@ -956,7 +956,7 @@ pub fn build_plan(rng: &mut Rng, seed: u64, c: &Corpus) -> SimPlan {
         pspec.roots = vec!["multi_rev.asm".to_string()];
         let pred = Job::from_spec("genprog:multi_rev.asm:pair", disk, pspec);
         let keys = rng.bytes16();
-        return SimPlan { faults: vec![vec![], vec![]], jobs: vec![pred, job], threads: vec![ThreadPlan { keys: keys_to_hex(&keys), jobs: vec![0, 1], reuse: vec![false, true], offsets: vec![0, 0] }], schedule: vec![], sched_seed: None, switch_16: 0, clock: vec![], lib_pass: true, all_formats: true, realfs: false, env: vec![] };
+        return SimPlan { faults: vec![vec![], vec![]], jobs: vec![pred, job], threads: vec![ThreadPlan { keys: keys_to_hex(&keys), jobs: vec![0, 1], reuse: vec![false, true], offsets: vec![0, 0] }], schedule: vec![], sched_seed: None, switch_16: 0, clock: vec![], lib_pass: true, all_formats: true, realfs: false, env: vec![], clock_tick_ns: 0 };
     }
     if rng.chance(1, 10) {
         // directed pair on one thread: a job right after its failing twin
@@ -1007,7 +1007,7 @@ pub fn build_plan(rng: &mut Rng, seed: u64, c: &Corpus) -> SimPlan {
                 }
                 let n = jobs.len();
                 let reuse: Vec<bool> = (0..n).map(|i| i > 0 && rng.chance(1, 2)).collect();
-                return SimPlan { faults, jobs, threads: vec![ThreadPlan { keys: keys_to_hex(&keys), jobs: idx, reuse, offsets: vec![0; n] }], schedule: vec![], sched_seed: None, switch_16: 0, clock: vec![], lib_pass: true, all_formats: true, realfs: false, env: vec![] };
+                return SimPlan { faults, jobs, threads: vec![ThreadPlan { keys: keys_to_hex(&keys), jobs: idx, reuse, offsets: vec![0; n] }], schedule: vec![], sched_seed: None, switch_16: 0, clock: vec![], lib_pass: true, all_formats: true, realfs: false, env: vec![], clock_tick_ns: 0 };
             }
         }
     }
@@ -1083,7 +1083,7 @@ pub fn build_plan(rng: &mut Rng, seed: u64, c: &Corpus) -> SimPlan {
             clock.push((at, sec, rng.below(1_000_000_000) as i64));
         }
     }
-    SimPlan { faults: vec![vec![]; jobs.len()], jobs, threads, schedule: vec![], sched_seed: Some(rng.next()), switch_16: *rng.pick(&[0, 2, 4, 8, 16]), clock, lib_pass: true, all_formats: true, realfs: false, env: draw_env(rng) }
+    SimPlan { faults: vec![vec![]; jobs.len()], jobs, threads, schedule: vec![], sched_seed: Some(rng.next()), switch_16: *rng.pick(&[0, 2, 4, 8, 16]), clock, lib_pass: true, all_formats: true, realfs: false, env: draw_env(rng), clock_tick_ns: if rng.chance(1, 3) { *rng.pick(&[1_000i64, 1_000_000, 1_000_000_000, 10_000_000_000, -1_000_000_000]) } else { 0 } }
 }
 
 pub fn check_plan(plan: &SimPlan, res: &PlanResult, refs: &BTreeMap<String, Record>) -> Vec<Violation> {
@@ -1229,6 +1229,10 @@ pub fn run(ctx: &mut Ctx, c: &Corpus) -> Vec<Replay> {
             ctx.stats.inc("dim_clock");
             dims += 1;
         }
+        if plan.clock_tick_ns != 0 {
+            ctx.stats.inc("dim_clock_passes_per_read");
+            dims += 1;
+        }
         if !plan.env.is_empty() {
             ctx.stats.inc("dim_env_vars");
             dims += 1;
@@ -1329,7 +1333,11 @@ pub fn run_proc(ctx: &mut Ctx, c: &Corpus, verif: &str) -> Vec<Replay> {
         let keys = keys_to_hex(&rng.bytes16());
         let clock = if rng.chance(1, 2) { Some(*rng.pick(&[0i64, 2147483648, 4102444800, 253402300800])) } else { None };
         let tag = if rng.chance(1, 2) { format!("-{}", "x".repeat(rng.range(1, 40))) } else { String::new() };
-        let env_vars = draw_env(&mut rng);
+        let mut env_vars = draw_env(&mut rng);
+        if clock.is_some() && rng.chance(1, 2) {
+            // time passes with every read of the clock
+            env_vars.push(("SHIM_CLOCK_TICK_NS".to_string(), rng.pick(&["1000", "1000000", "1000000000", "10000000000"]).to_string()));
+        }
         // legal-but-unusual kernel behaviour is part of the environment too:
         // interrupted and short reads/writes, a size hint that is too large
         let mut kernel: Vec<crate::procsim::ProcFault> = Vec::new();
